@@ -29,7 +29,7 @@ func runDetect(env *Env) error {
 	c := pfs.VerifConsts
 	dirNames := []string{"PS3ISO", "ps3iso", "Ps3Iso", "GAMES"}
 	exts := []string{".iso", ".ISO", ".Iso", ".bin", ""}
-	keySits := []string{"none", "adjacent", "redkey", "both", "malformed", "adjacent-dir", "short"}
+	keySits := []string{"none", "adjacent", "redkey", "both", "malformed", "adjacent-dir", "short", "redkey-file"}
 	wms := []string{"none", "enc", "dec"}
 	for i := 0; i < env.N; i++ {
 		id := fmt.Sprintf("det-%d", i)
@@ -134,6 +134,12 @@ func runDetect(env *Env) error {
 		case "adjacent-dir":
 			holder.Kids = append(holder.Kids, &WNode{Name: keyName, Dir: true, MTime: 1400000001})
 			addRed(hexKey(keyRed))
+		case "redkey-file": // where the key's directory would be there is a regular file: no key file exists, the image is passed through
+			if nested && env.Rnd.Intn(2) == 0 {
+				r.Kids = append(r.Kids, &WNode{Name: "REDKEY", Dir: true, MTime: 1500000003, Kids: []*WNode{{Name: "sub", MTime: 1400000001, Content: lit(hexKey(keyRed))}}})
+			} else {
+				r.Kids = append(r.Kids, &WNode{Name: "REDKEY", MTime: 1400000001, Content: lit(hexKey(keyRed))})
+			}
 		}
 		w := &WNode{Dir: true, MTime: 1300000000, Kids: []*WNode{r}}
 		if err := w.Materialise(top); err != nil {
